@@ -439,17 +439,23 @@ def check_cyl_mask(ck: Check, nr, nz, dr, dz, z0, m):
             if not (z0 - 1e-12 <= d.position[2] <= z0 + L + 1e-12) or abs(d.position[0]) + abs(d.position[1]) > 0:
                 ck.fail(f"droplet position {d.position} not on the axis inside the box", {**sig, "check": "position_in_box"}, case)
         else:
-            # components left out: only if their sphere overlaps a kept, at least as large one (overlap filter)
+            # components left out: only if their sphere overlaps that of another on-axis component at least as large
+            # (the greedy overlap filter removes a droplet because of one that is present AT THAT MOMENT - C10 - which
+            # may itself be removed later)
             for k in unused:
                 vol, zc = info[k]
                 r = sphere_radius(vol, 3)
                 ok = False
-                for d in em:
-                    dzz = abs((d.position[2] - zc + L / 2) % L - L / 2)
-                    if min(dzz, abs(d.position[2] - zc)) < r + d.radius + 1e-9 and d.radius >= r - 1e-12:
+                for j, (vol2, zc2) in enumerate(info):
+                    if j == k:
+                        continue
+                    r2 = sphere_radius(vol2, 3)
+                    dzz = abs((zc2 - zc + L / 2) % L - L / 2)
+                    if min(dzz, abs(zc2 - zc)) < r + r2 + 1e-9 and r2 >= r - 1e-12:
                         ok = True
                 if not ok:
-                    ck.fail(f"on-axis periodic component (volume {vol:.5g}, z {zc:.4g}) is missing from the result {[str(d) for d in em]}", {**sig, "check": "cyl_component"}, case)
+                    ck.fail(f"on-axis periodic component (volume {vol:.5g}, z {zc:.4g}) is missing from the result {[str(d) for d in em]} although no other component's sphere overlaps it",
+                            {**sig, "check": "cyl_component"}, case)
 
 
 def replay(case: dict):
